@@ -395,11 +395,28 @@ def _spread(lst, cap=CAP):
     return [lst[(j * n) // cap] for j in range(cap)]
 
 
+PER_PLACE = 3
+
+
 def sites(op_id, P):
     o = OPS[op_id]
     if not P.lex_ok or (o.ext and o.ext != P.ext):
         return []
-    return _spread(list(o.fn(P)))
+    ss = list(o.fn(P))
+    if ss and any(e.ctx[:1] == ("place",) for e in ss):
+        # operators that name the PLACE of the edit (statement kind x position): every place keeps its share of the sites
+        by = OrderedDict()
+        for e in ss:
+            by.setdefault((place_of(e), _cget(e.ctx, "as")), []).append(e)
+        out = []
+        for pl, lst in by.items():
+            out += _spread(lst, PER_PLACE)
+        return out
+    return _spread(ss)
+
+
+def place_of(e):
+    return e.ctx[1] if e.ctx[:1] == ("place",) else None
 
 
 def _tabs(n):
@@ -717,19 +734,34 @@ def _ctl(P, i):
 @op("S01", "FORBIDDEN_CS", "for forbidden")
 def s01(P):
     for i in range(11, len(P.lines)):
-        if P.kind[i] == "while":
+        if P.kind[i] in ("while", "if"):
             kw, lp, rp = _ctl(P, i)
             cond = P.src[P.toks[lp][5]:P.toks[rp][4]]
             yield Edit(P.splice(P.toks[kw][4], P.toks[rp][5], "for (;" + cond + ";)"), i + 1,
-                       P.lctx(i) + ("body", P.kind[i + 1]))
+                       ("place", "instead-of-" + P.kind[i]) + P.lctx(i) + ("body", P.kind[i + 1]))
+    yield from _place_insertions(P, [], [("for-empty", "for (;;)"), ("for-full", "for (" + NEW + " = 0; " + NEW + " < 3; " + NEW + "++)")],
+                                 body="break ;")
+    yield from _ctl_as_body(P, "for (;;)")
+
+
+def _ctl_as_body(P, head):
+    """a forbidden control structure as the brace-less body of an if / else / while: head replaces the body statement, the old
+    body becomes its body"""
+    for i in range(11, len(P.lines)):
+        if P.kind[i] == "stmt" and P.kind[i - 1] in CONTROL and P.depth[i] == P.depth[i - 1] + 1:
+            L = P.lines[:i] + [_tabs(P.depth[i]) + head, "\t" + P.lines[i]] + P.lines[i + 1:]
+            yield Edit(P.with_lines(L), i + 1, ("place", "body-of-" + P.kind[i - 1], "d", P.depth[i]))
 
 
 @op("S02", "FORBIDDEN_CS", "switch forbidden")
 def s02(P):
     for i in range(11, len(P.lines)):
-        if P.kind[i] == "while":
+        if P.kind[i] in ("while", "if"):
             kw, lp, rp = _ctl(P, i)
-            yield Edit(P.splice(P.toks[kw][4], P.toks[kw][5], "switch"), i + 1, P.lctx(i) + ("body", P.kind[i + 1]))
+            yield Edit(P.splice(P.toks[kw][4], P.toks[kw][5], "switch"), i + 1,
+                       ("place", "instead-of-" + P.kind[i]) + P.lctx(i) + ("body", P.kind[i + 1]))
+    yield from _place_insertions(P, [], [("switch", "switch (" + NEW + ")")], body="break ;")
+    yield from _ctl_as_body(P, "switch (" + NEW + ")")
 
 
 def _ins_ctx(P, j, d, f):
@@ -743,12 +775,19 @@ def _insert_stmt(P, text_of_depth):
 
 @op("S03", "GOTO_FBIDDEN", "goto forbidden")
 def s03(P):
-    return _insert_stmt(P, lambda d: _tabs(d) + "goto " + NEW + ";")
+    return _place_insertions(P, [("goto", "goto " + NEW + ";")], [])
 
 
 @op("S04", "LABEL_FBIDDEN", "goto/labels forbidden")
 def s04(P):
-    return _insert_stmt(P, lambda d: _tabs(d) + NEW + ":")
+    for j, d, f in P.inspoints:
+        for place, text in (("label", _tabs(d) + NEW + ":"), ("label-col0", NEW + ":")):
+            yield Edit(P.insert_before(j, [text]), j + 1, ("place", place) + _ins_ctx(P, j, d, f))
+    # a label in front of the body of a brace-less control structure
+    for i in range(11, len(P.lines)):
+        if P.kind[i] == "stmt" and P.kind[i - 1] in CONTROL and P.depth[i] == P.depth[i - 1] + 1:
+            yield Edit(P.insert_before(i, [_tabs(P.depth[i]) + NEW + ":"]), i + 1,
+                       ("place", "label-before-body-of-" + P.kind[i - 1], "d", P.depth[i]))
 
 
 def _assigns(P):
@@ -768,13 +807,115 @@ def _assigns(P):
                     break
 
 
+TERN = NEW + " ? 1 : 0"
+NEW2, NEW3 = "zq8", "zq7"
+
+# one-line statements holding a ternary, one per statement kind a primary rule can match (and per position inside it)
+TERN_STMTS = [
+    ("call-arg", NEW2 + "(" + TERN + ");"),                              # bare call statement (IsFunctionCall)
+    ("call-arg-second-paren", NEW2 + "(" + NEW3 + ", (" + TERN + "));"),
+    ("call-nested-arg", NEW2 + "(" + NEW3 + "(" + TERN + "));"),
+    ("call-member", NEW2 + "->" + NEW3 + "(" + TERN + ");"),
+    ("call-pointer", "(*" + NEW2 + ")(" + TERN + ");"),
+    ("call-index-arg", NEW2 + "(" + NEW3 + "[" + TERN + "]);"),
+    ("assign-rhs", NEW2 + " = " + TERN + ";"),                           # IsAssignation
+    ("assign-rhs-paren", NEW2 + " = (" + TERN + ");"),
+    ("assign-call-arg", NEW2 + " = " + NEW3 + "(" + TERN + ");"),
+    ("assign-compound", NEW2 + " += " + TERN + ";"),
+    ("assign-deref", "*" + NEW2 + " = " + TERN + ";"),
+    ("assign-lhs-index", NEW2 + "[" + TERN + "] = 0;"),
+    ("postinc-index", NEW2 + "[" + TERN + "]++;"),
+    ("preinc-index", "++" + NEW2 + "[" + TERN + "];"),
+    ("return", "return (" + TERN + ");"),                                # IsExpressionStatement
+    ("return-call-arg", "return (" + NEW2 + "(" + TERN + "));"),
+    ("void-cast", "(void)(" + TERN + ");"),                              # (void) statements
+    ("void-cast-call-arg", "(void)" + NEW2 + "(" + TERN + ");"),
+    ("cast-stmt", "(int)" + NEW2 + "(" + TERN + ");"),                   # IsCast
+    ("ternary-stmt", NEW + " ? " + NEW2 + "() : " + NEW3 + "();"),       # IsTernary
+]
+TERN_CTLS = [
+    ("if-cond", "if (" + TERN + ")"),                                    # IsControlStatement
+    ("if-cond-call-arg", "if (" + NEW2 + "(" + TERN + "))"),
+    ("while-cond", "while (" + TERN + ")"),
+    ("while-cond-cmp", "while (" + NEW2 + " < (" + TERN + "))"),
+]
+
+
+def _place_insertions(P, stmts, ctls, body=None):
+    """every statement text at insertion points of the function bodies: in a block (between statements of every kind), as the
+    brace-less body of an if / else / while, and (control lines) with a brace-less body of their own"""
+    pts = P.inspoints
+    for n, (place, text) in enumerate(stmts):
+        for j, d, f in pts:
+            yield Edit(P.insert_before(j, [_tabs(d) + text]), j + 1, ("place", place, "as", "stmt") + _ins_ctx(P, j, d, f))
+        # as the body of a brace-less control structure: replaces the body statement
+        for i in range(11, len(P.lines)):
+            if P.kind[i] == "stmt" and P.kind[i - 1] in CONTROL and P.depth[i] == P.depth[i - 1] + 1:
+                yield Edit(P.repl_line(i, _tabs(P.depth[i]) + text), i + 1,
+                           ("place", place, "as", "body-of-" + P.kind[i - 1], "d", P.depth[i]))
+    for n, (place, text) in enumerate(ctls):
+        for j, d, f in pts:
+            yield Edit(P.insert_before(j, [_tabs(d) + text, _tabs(d + 1) + (body or NEW2 + " = 0;")]), j + 1,
+                       ("place", place, "as", "stmt") + _ins_ctx(P, j, d, f))
+
+
+def _pp_line_idx(P):
+    return [i for i in range(11, len(P.lines)) if P.kind[i] == "pp"]
+
+
 @op("S05", "TERNARY_FBIDDEN", "ternaries forbidden")
 def s05(P):
+    # in place: the right-hand side of the assignments of the program
     for i, k in _assigns(P):
         c = P.code_toks(i)
         lo, hi = P.toks[k + 2][4], P.toks[c[-1]][4]
         yield Edit(P.splice(lo, hi, NEW + " ? " + P.src[lo:hi] + " : 0"), i + 1,
-                   P.lctx(i) + ("aop", P.ty(k), "rhs", P.ty(k + 2)))
+                   ("place", "assign-rhs-inplace") + P.lctx(i) + ("aop", P.ty(k), "rhs", P.ty(k + 2)))
+    # in place: first argument / whole argument list of the bare call statements, return values, conditions
+    for i in range(11, len(P.lines)):
+        c = P.code_toks(i)
+        if P.kind[i] == "stmt" and P.sub[i] in ("call", "retv", "void"):
+            lp = next((k for k in c if P.ty(k) == "LPARENTHESIS" and not (P.sub[i] == "void" and k == c[0])), None)
+            rp = P.pmatch.get(lp) if lp is not None else None
+            if lp is None or rp is None:
+                continue
+            lo, hi = P.toks[lp][5], P.toks[rp][4]
+            inner = P.src[lo:hi]
+            first = inner.split(",")[0] if inner and "(" not in inner and "[" not in inner and '"' not in inner and "'" not in inner else None
+            if inner == "":
+                yield Edit(P.splice(lo, hi, TERN), i + 1, ("place", P.sub[i] + "-inplace", "args", 0) + P.lctx(i))
+            elif first is not None:
+                yield Edit(P.splice(lo, lo + len(first), NEW + " ? " + first + " : 0"), i + 1,
+                           ("place", P.sub[i] + "-inplace", "args", inner.count(",") + 1) + P.lctx(i))
+            else:
+                yield Edit(P.splice(lo, lo, TERN + ", "), i + 1, ("place", P.sub[i] + "-inplace", "args", "front") + P.lctx(i))
+        elif P.kind[i] in ("if", "elif", "while"):
+            kw, lp, rp = _ctl(P, i)
+            lo, hi = P.toks[lp][5], P.toks[rp][4]
+            yield Edit(P.splice(lo, hi, NEW + " ? (" + P.src[lo:hi] + ") : 0"), i + 1, ("place", P.kind[i] + "-cond-inplace") + P.lctx(i))
+        elif P.kind[i] in ("decl", "global", "field") and P.last_ty(i) == "SEMI_COLON" and "ASSIGN" not in P.types(i) \
+                and "LPARENTHESIS" not in P.types(i):
+            semi = P.ltoks[i][-1]
+            lo = P.toks[semi][4]
+            if P.kind[i] != "field":
+                # an initialiser (allowed at file level and for static / const locals; reported as well where it is not)
+                yield Edit(P.splice(lo, lo, " = " + TERN), i + 1, ("place", P.kind[i] + "-init") + P.lctx(i))
+            if "LBRACKET" not in P.types(i):
+                yield Edit(P.splice(lo, lo, "[" + NEW + " ? 1 : 2]"), i + 1, ("place", P.kind[i] + "-array-size") + P.lctx(i))
+        elif P.kind[i] in ("fhead", "proto"):
+            for pn, prm in enumerate(P._params(i)):
+                if P.ty(prm[-1]) == "IDENTIFIER":
+                    hi = P.toks[prm[-1]][5]
+                    yield Edit(P.splice(hi, hi, "[" + NEW + " ? 1 : 2]"), i + 1, ("place", P.kind[i] + "-param-array-size", "pos", pn))
+    # macro bodies
+    for i in _pp_line_idx(P):
+        L = P.lines[i]
+        m = _re.match(r"^(#\s*define\s+[A-Z_0-9]+)(\s+)(\S.*)$", L)
+        if m and "(" not in m.group(1):
+            yield Edit(P.repl_line(i, m.group(1) + m.group(2) + "(" + NEW + " ? " + m.group(3) + " : 0)"), i + 1,
+                       ("place", "macro-body") + P.lctx(i))
+    # inserted statements of every kind, at every kind of position
+    yield from _place_insertions(P, TERN_STMTS, TERN_CTLS)
 
 
 @op("S06", "ASSIGN_IN_CONTROL", "no assignment in a control structure")
